@@ -91,7 +91,9 @@ class Machine(object):
         if abs(tw - tot) > 1e-9 * scale:
             return ("total_weight", "after %s: total_weight() = %r, sum of current weights = %r (weights %r)"
                     % (opname, tw, tot, {repr(ITEMS[i]): w for i, w in bag.items()}))
+        self.last_probed = False
         if tot > 0:
+            self.last_probed = sum(1 for w in bag.values() if w > 0) >= 2
             code, ref, leaves = self.law()
             bad = compare_laws(code, ref, 1e-8)
             if bad:
@@ -217,6 +219,7 @@ def run_seeded(rng, nops, stats):
     m = Machine(cls)
     m.stats = stats
     ops = []
+    stats["_probed"] = []
     for _ in range(nops):
         op = next_op(rng, m.bag)
         ops.append(op)
@@ -240,6 +243,7 @@ def run_seeded(rng, nops, stats):
                 raise
             except Exception as e:
                 r = ("crash", "invariant probe after %s raised %s: %s" % (op, type(e).__name__, e))
+        stats["_probed"].append(bool(getattr(m, "last_probed", False)))
         if r is not None:
             return r, ops
         if not m.bag:
